@@ -2,6 +2,7 @@ package main
 
 import (
 	"fmt"
+	"go/constant"
 	"go/token"
 	"go/types"
 	"sort"
@@ -64,6 +65,12 @@ func (f *frame) doCallVals(c *ssa.CallCommon, args []Val, st *State, pos token.P
 		f.safety("nilcall", st, fmt.Sprintf("(not (= %s 0))", fv.T), pos, "call of nil function value")
 	}
 	f.beforeCall(key, args, st, pos)
+	if key == "strings.ToUpper" && len(args) == 1 {
+		// constant folding: the upper-cased form of a string constant is a constant
+		if k, ok := args[0].SSA.(*ssa.Const); ok && k.Value != nil && k.Value.Kind() == constant.String {
+			return Val{T: g.strLit(strings.ToUpper(constant.StringVal(k.Value))), Ty: tyStr}
+		}
+	}
 	if key == "fmt.Sprintf" || key == "fmt.Fprintf" {
 		if v, ok := f.tryFmtCall(c, key, st); ok {
 			return v
@@ -104,13 +111,19 @@ func (f *frame) beforeCall(key string, args []Val, st *State, pos token.Pos) {
 	} else {
 		con = g.W.db.Contracts[g.W.relName(f.fn)]
 	}
-	if con == nil || len(con.Before[key]) == 0 {
+	if con == nil {
 		return
 	}
 	if f.beforeCtr == nil {
 		f.beforeCtr = map[string]int{}
 	}
 	f.beforeCtr[key]++
+	// clauses for every call of the callee, and clauses for its k-th call site only ("callee#k")
+	clauses := append([]*Clause{}, con.Before[key]...)
+	clauses = append(clauses, con.Before[fmt.Sprintf("%s#%d", key, f.beforeCtr[key])]...)
+	if len(clauses) == 0 {
+		return
+	}
 	env := &Env{g: g, vars: map[string]Val{}, heap: st.heap, old: f.entry}
 	f.bindParams(env)
 	env.lookup = f.localsAt(f.curBlock)
@@ -119,7 +132,7 @@ func (f *frame) beforeCall(key string, args []Val, st *State, pos token.Pos) {
 	for i, a := range args {
 		env.vars[fmt.Sprintf("$%d", i)] = a
 	}
-	for i, cl := range con.Before[key] {
+	for i, cl := range clauses {
 		t, err := g.trBool(cl.E, env)
 		name := f.oblName(fmt.Sprintf("before:%s#%d:%s", shortName(key), f.beforeCtr[key], clauseLabel(cl, i)))
 		if err != nil {
